@@ -261,3 +261,14 @@ Theorem C12_grant_ctr_is_client_step : forall e s k w,
   client_step e s (EvGrant k w) = (upd s k (grant_ctr (s k) w), None).
 Proof. exact client_step_grant. Qed.
 Print Assumptions C12_grant_ctr_is_client_step.
+
+(** What the peer may rely on never shrinks: in every history within credit, for every counter,
+    the peer's credit stays at least the advertised initial value (a lower MAX_STREAMS / MAX_DATA /
+    MAX_STREAM_DATA is ignored by the peer), the enforced window never decreases, and the client
+    keeps enforcing at least the peer's credit. (An implementation whose limit drops after a
+    stream completes -- a limit recomputed from a smaller Config value -- contradicts this; the
+    after-completion probes look for exactly that.) *)
+Theorem C12_limits_never_decrease : forall e h s s', inv s -> run_st e s h = Some s' ->
+  forall k, cr (s k) <= cr (s' k) /\ rw (s k) <= rw (s' k) /\ cr (s' k) <= rw (s' k).
+Proof. exact limits_never_decrease. Qed.
+Print Assumptions C12_limits_never_decrease.
